@@ -1,0 +1,5 @@
+// Declares the cfg name of the verification hooks (`--cfg sdjwt_verif`, see src/verif_hooks.rs) so that
+// rustc's check-cfg lint knows it; nothing else is built or configured here.
+fn main() {
+    println!("cargo::rustc-check-cfg=cfg(sdjwt_verif)");
+}
